@@ -13,10 +13,10 @@ def parseReqs (toks : List String) : Option (List Req) := allSome (toks.map pars
 /-- expected k-results of an injection case: operation k fails, for k = k0 … (number of operations − 1) -/
 def expectedKs (db : Db) (r : Req) (now : Nat) (k0 : Nat) (after : Bool) (withClass : Bool) : List String :=
   let o := dsOpts r
-  let nOps := ((sqlTrace sqlCeq db r.dels r.writes o).filter (· != "rollback")).length
+  let nOps := ((sqlTraceSrc db r.dels r.writes o).filter (· != "rollback")).length
   (List.range nOps).filterMap (fun k =>
     if k < k0 then none else
-    let (db', e) := sqlWrite sqlCeq genCfg db r.dels r.writes o now (some ⟨k, after⟩)
+    let (db', e) := sqlWriteSrc db r.dels r.writes o now (some ⟨k, after⟩)
     let same := if db'.committed == db.committed then "same" else "CHANGED"
     some (if withClass then (match e with | none => "ok" | some e => e.name) ++ ":" ++ same else same))
 
@@ -47,7 +47,7 @@ def histStep (backend : String) (kind : String) (mode : String) (acc : HAcc) (r 
       let expPre : List String := match kind with
         | "F" =>
           let k0 := if mode == "c" then 1 else 0
-          [".".intercalate (sqlTrace sqlCeq db r.dels r.writes (dsOpts r)), fmtList (expectedKs db r acc.now k0 (mode == "a") true)]
+          [".".intercalate (sqlTraceSrc db r.dels r.writes (dsOpts r)), fmtList (expectedKs db r acc.now k0 (mode == "a") true)]
         | "X" => [fmtList (expectedKs db r acc.now 1 false false)]
         | _ => []
       let expected := ";".intercalate (expPre ++ [mres, m'.dump])
